@@ -1,10 +1,36 @@
-(* WIP *)
 (* C14 — Session present flag and session takeover behave per clean start.  Statements only. *)
 From MV Require Import Base.Val Base.Sched Session.Lifecycle Session.LifeSpec Session.LifeBase Session.LifeProofs13
-  Conc.Connack Conc.ConnackProofs Conc.Takeover Conc.TakeoverProofs.
+  Session.LifeProofs14 Conc.Connack Conc.ConnackProofs Conc.Takeover Conc.TakeoverProofs.
 Open Scope N_scope.
 
 Definition model_obs (k : caps) (ops : list op) : list obs := map obs_of (trace k init ops).
+
+(* [mon14] (Session/LifeSpec.v) is the specification monitor that ./check runs on what the real broker
+   did; on the traces of the component model it never reports anything, for every history of
+   operations and every server configuration (sequential orders: every operation runs to
+   quiescence; the teardown of a taken-over connection is an operation of its own, OTeardown). *)
+
+(* CONNACK session present = a session existed && !clean start *)
+Theorem C14_sp : forall (k : caps) (ops : list op), fresh_conns [] ops = true ->
+  forall v, In v (mon14 (model_obs k ops)) -> v_tag v <> V14_sp.
+Proof. intros k ops F v I. unfold model_obs in I. rewrite (mon14_model_clean k ops F) in I. destruct I. Qed.
+
+(* a resumed session keeps every subscription (in the session and in the topic index) and every unacknowledged message *)
+Theorem C14_resume_keeps : forall (k : caps) (ops : list op), fresh_conns [] ops = true ->
+  forall v, In v (mon14 (model_obs k ops)) -> v_tag v <> V14_keeps.
+Proof. intros k ops F v I. unfold model_obs in I. rewrite (mon14_model_clean k ops F) in I. destruct I. Qed.
+
+(* with clean start nothing of the previous session survives in the broker: no subscription, no
+   in-flight message, no entry of the topic index (what a persistent store restores later is C21) *)
+Theorem C14_clean_drops : forall (k : caps) (ops : list op), fresh_conns [] ops = true ->
+  forall v, In v (mon14 (model_obs k ops)) -> v_tag v <> V14_clean.
+Proof. intros k ops F v I. unfold model_obs in I. rewrite (mon14_model_clean k ops F) in I. destruct I. Qed.
+
+(* the connection whose identifier is taken over receives DISCONNECT 0x8E (MQTT 5) and nothing else, is
+   closed, and no connection ever receives a packet after the broker closed it *)
+Theorem C14_old_silent : forall (k : caps) (ops : list op), fresh_conns [] ops = true ->
+  forall v, In v (mon14 (model_obs k ops)) -> v_tag v <> V14_old_after /\ v_tag v <> V14_old_takeover.
+Proof. intros k ops F v I. unfold model_obs in I. rewrite (mon14_model_clean k ops F) in I. destruct I. Qed.
 
 (* ---- schedules: the old connection's teardown against the new connection's attach (Conc/Takeover.v) ---- *)
 
@@ -47,6 +73,10 @@ Example C14_nonvacuous :
   nth 8 (map t_outs (trace capsD init hist14)) [] = [].
 Proof. vm_compute. repeat split. Qed.
 
+Print Assumptions C14_sp.
+Print Assumptions C14_resume_keeps.
+Print Assumptions C14_clean_drops.
+Print Assumptions C14_old_silent.
 Print Assumptions C14_registered_schedules_refuted.
 Print Assumptions C14_registered_modulo_findings.
 Print Assumptions C14_keeps_schedules_refuted.
